@@ -4,7 +4,7 @@ C17 — Pub/sub delivers exactly to matching member subscriptions and leaks no s
 Only property theorems (and their non-vacuity examples) live here; helper lemmas are in
 `PubSub/Lemmas.lean`, the specification vocabulary in `PubSub/Spec.lean` and `PubSub/Rule.lean`.
 -/
-import AnySyncModel.PubSub.Lemmas
+import AnySyncModel.PubSub.ServiceLemmas
 
 namespace AnySync.PubSub
 open Generated.PubSub
@@ -148,7 +148,8 @@ def C17_delivery_exact_full : Prop :=
                   then [true] else [])
 
 /-- **delivery_exact.** Holds in every state in which the three bookkeeping views agree
-(`NodeSt.Agree`, see `views_agree_*` below for which steps are proved to keep it). -/
+(`NodeSt.Agree`); `views_agree` below shows that every reachable state is such a state, and
+`delivery_exact_reachable` combines the two. -/
 theorem delivery_exact : C17_delivery_exact_full := by
   intro s h peer ident space topic msgIdent relayed idLenOk big
   obtain ⟨hd, hf⟩ := handlePublish_obs s peer ident space topic msgIdent relayed idLenOk big
@@ -176,25 +177,23 @@ theorem publish_keeps_views (s : NodeSt) (peer ident space topic msgIdent : Stri
 
 /-! ## serving side: the three views, teardown -/
 
-/-- the serving-side invariant: the views agree and no empty record is kept -/
-def NodeSt.Inv (s : NodeSt) : Prop := s.Agree ∧ s.NoEmpty
-
-/-- an operation keeps the invariant -/
-def KeepsInv (op : NodeOp) : Prop := ∀ s : NodeSt, NodeSt.Inv s → NodeSt.Inv (s.step op)
+/-- an operation keeps the serving-side invariant `NodeSt.Agree` (the views agree, records are well
+formed, no empty record or trie is kept) -/
+def KeepsInv (op : NodeOp) : Prop := ∀ s : NodeSt, s.Agree → (s.step op).Agree
 
 /-- **views_agree, full strength**: after every step of every operation sequence (subscribe /
 unsubscribe / publish / open / close / evict / revalidate / close-space / membership change) from an
-empty service, the space tries, the per-stream records and the stream tags describe one relation,
-and no empty record is kept. -/
+empty service, the space tries, the per-stream records and the stream tags describe one relation:
+trie refcount of a pattern = number of streams that registered it, a stream's tags = its registered
+`(space, pattern)` pairs, `total` = number of patterns, and no empty record or trie is kept. -/
 def C17_views_agree_full : Prop :=
   ∀ (a b c : Nat) (ops : List NodeOp),
-    NodeSt.Inv (({ capSpace := a, capStream := b, burst := c } : NodeSt).run ops)
+    (({ capSpace := a, capStream := b, burst := c } : NodeSt).run ops).Agree
 
 /-- the invariant holds initially -/
-theorem views_agree_init (a b c : Nat) : NodeSt.Inv ({ capSpace := a, capStream := b, burst := c } : NodeSt) :=
-  ⟨Agree_empty a b c, NoEmpty_empty a b c⟩
+theorem views_agree_init (a b c : Nat) : ({ capSpace := a, capStream := b, burst := c } : NodeSt).Agree :=
+  Agree_empty a b c
 
-/-- steps proved to keep the invariant: opening a stream, -/
 theorem views_agree_open (sid : Nat) (peer ident : String) : KeepsInv (.openStream sid peer ident) := by
   intro s h
   simp only [NodeSt.step]
@@ -202,51 +201,67 @@ theorem views_agree_open (sid : Nat) (peer ident : String) : KeepsInv (.openStre
   · exact h
   · rename_i hf
     have hf' : s.poolStream sid = none := by simpa using hf
-    exact ⟨Agree_openStream h.1 sid peer ident hf', NoEmpty_congr (s := s) rfl rfl h.2⟩
+    exact Agree_openStream h sid peer ident hf'
 
-/-- … handling a publish (accepted or rejected, relayed or not), -/
 theorem views_agree_publish (peer ident space topic msgIdent : String) (relayed idLenOk big : Bool) :
     KeepsInv (.publish peer ident space topic msgIdent relayed idLenOk big) := by
   intro s h
   obtain ⟨h1, h2, h3⟩ := handlePublish_state s peer ident space topic msgIdent relayed idLenOk big
-  exact ⟨Agree_congr h1 h2 h3 h.1, NoEmpty_congr h1 h2 h.2⟩
+  exact Agree_congr h1 h2 h3 h
 
-/-- … and a membership change (interest is only dropped by an explicit evict / revalidate). -/
 theorem views_agree_setMember (space acct : String) (v : Bool) : KeepsInv (.setMember space acct v) := by
   intro s h
-  exact ⟨Agree_congr (s := s) rfl rfl rfl h.1, NoEmpty_congr (s := s) rfl rfl h.2⟩
+  exact Agree_congr (s := s) rfl rfl rfl h
 
-/-- **views_agree_partial.** The full statement follows by induction over the history from the
-per-step obligations. NAMED GAP: `KeepsInv` is proved above for open / publish / membership change;
-for subscribe, unsubscribe, stream close, evict, revalidate and close-space it is a hypothesis here
-(their model functions are folds over pattern lists; the per-step agreement of exactly these
-handlers is what the harness checks on the real code and on the model after every operation). -/
-theorem views_agree_partial
-    (hsub : ∀ sid peer ident space topics, KeepsInv (.subscribe sid peer ident space topics))
-    (hunsub : ∀ sid space topics, KeepsInv (.unsubscribe sid space topics))
-    (hclose : ∀ sid, KeepsInv (.closeStream sid))
-    (hevict : ∀ space acct, KeepsInv (.evict space acct))
-    (hreval : ∀ space, KeepsInv (.revalidate space))
-    (hcs : ∀ space, KeepsInv (.closeSpace space)) : C17_views_agree_full := by
+/-- `EvictMember` keeps the invariant -/
+theorem views_agree_evict (space acct : String) : KeepsInv (.evict space acct) :=
+  fun _ h => Agree_evictMember h space acct
+
+/-- `RevalidateMembers` keeps the invariant -/
+theorem views_agree_revalidate (space : String) : KeepsInv (.revalidate space) :=
+  fun _ h => Agree_revalidate h space
+
+/-- `CloseSpace` keeps the invariant -/
+theorem views_agree_closeSpace (space : String) : KeepsInv (.closeSpace space) :=
+  fun _ h => Agree_closeSpace h space
+
+/-- stream close (`removeStream` + `onStreamClose`) keeps the invariant -/
+theorem views_agree_closeStream (sid : Nat) : KeepsInv (.closeStream sid) :=
+  fun _ h => Agree_closeStream h sid
+
+/-- `handleUnsubscribe` keeps the invariant -/
+theorem views_agree_unsubscribe (sid : Nat) (space : String) (topics : List String) :
+    KeepsInv (.unsubscribe sid space topics) :=
+  fun _ h => Agree_handleUnsubscribe h sid space topics
+
+/-- `handleSubscribe` keeps the invariant: every rejection branch, the accept loop with both caps,
+tag registration, the rollback when the stream has vanished, and the (repaired) zero-accept case -/
+theorem views_agree_subscribe (sid : Nat) (peer ident space : String) (topics : List String) :
+    KeepsInv (.subscribe sid peer ident space topics) :=
+  fun _ h => Agree_handleSubscribe h sid peer ident space topics
+
+/-- every operation keeps the invariant -/
+theorem views_agree_step (op : NodeOp) : KeepsInv op := by
+  cases op with
+  | openStream sid peer ident => exact views_agree_open sid peer ident
+  | subscribe sid peer ident space topics => exact views_agree_subscribe sid peer ident space topics
+  | unsubscribe sid space topics => exact views_agree_unsubscribe sid space topics
+  | publish peer ident space topic msgIdent relayed idLenOk big =>
+    exact views_agree_publish peer ident space topic msgIdent relayed idLenOk big
+  | closeStream sid => exact views_agree_closeStream sid
+  | evict space acct => exact views_agree_evict space acct
+  | revalidate space => exact views_agree_revalidate space
+  | closeSpace space => exact views_agree_closeSpace space
+  | setMember space acct v => exact views_agree_setMember space acct v
+
+/-- **views_agree.** The full statement, for every history, by induction over the operation list. -/
+theorem views_agree : C17_views_agree_full := by
   intro a b c ops
-  have hstep : ∀ op, KeepsInv op := by
-    intro op
-    cases op with
-    | openStream sid peer ident => exact views_agree_open sid peer ident
-    | subscribe sid peer ident space topics => exact hsub sid peer ident space topics
-    | unsubscribe sid space topics => exact hunsub sid space topics
-    | publish peer ident space topic msgIdent relayed idLenOk big =>
-      exact views_agree_publish peer ident space topic msgIdent relayed idLenOk big
-    | closeStream sid => exact hclose sid
-    | evict space acct => exact hevict space acct
-    | revalidate space => exact hreval space
-    | closeSpace space => exact hcs space
-    | setMember space acct v => exact views_agree_setMember space acct v
-  have : ∀ (ops : List NodeOp) (s : NodeSt), NodeSt.Inv s → NodeSt.Inv (s.run ops) := by
+  have : ∀ (ops : List NodeOp) (s : NodeSt), s.Agree → (s.run ops).Agree := by
     intro ops
     induction ops with
     | nil => intro s h; exact h
-    | cons op rest ih => intro s h; exact ih _ (hstep op s h)
+    | cons op rest ih => intro s h; exact ih _ (views_agree_step op s h)
   exact this ops _ (views_agree_init a b c)
 
 /-- **teardown_empties, full strength**: in every reachable state in which no interest is registered
@@ -257,19 +272,41 @@ def C17_teardown_full : Prop :=
     let s := ({ capSpace := a, capStream := b, burst := c } : NodeSt).run ops
     (∀ sid sp p, ¬ s.Reg sid sp p) → s.Clean
 
-/-- **teardown_empties_partial.** In any state satisfying the invariant, "nothing registered"
-implies "all bookkeeping empty"; in particular once every stream is closed. The hypothesis is the
-invariant (gap: see `views_agree_partial`). -/
-theorem teardown_empties_partial (s : NodeSt) (h : NodeSt.Inv s) :
+/-- in any state satisfying the invariant, "nothing registered" implies "all bookkeeping empty";
+in particular once every stream is closed -/
+theorem teardown_of_invariant (s : NodeSt) (h : s.Agree) :
     ((∀ sid sp p, ¬ s.Reg sid sp p) → s.Clean) ∧ (s.pool = [] → s.Clean) := by
-  refine ⟨clean_of_no_reg h.1 h.2, fun hp => clean_of_no_reg h.1 h.2 ?_⟩
+  refine ⟨clean_of_no_reg h, fun hp => clean_of_no_reg h ?_⟩
   intro sid sp p hreg
-  obtain ⟨st, hst, _⟩ := h.1.inPool sid sp p hreg
+  obtain ⟨st, hst, _⟩ := h.inPool sid sp p hreg
   simp [hp] at hst
 
-theorem teardown_of_views (hv : C17_views_agree_full) : C17_teardown_full := by
+/-- **teardown_empties.** For every history: once nothing is registered any more, the space tries,
+the per-stream records and the stream tags are all empty. -/
+theorem teardown_empties : C17_teardown_full := by
   intro a b c ops
-  exact (teardown_empties_partial _ (hv a b c ops)).1
+  exact (teardown_of_invariant _ (views_agree a b c ops)).1
+
+/-- … in particular after every stream has closed, whatever happened before -/
+theorem teardown_all_closed (a b c : Nat) (ops : List NodeOp)
+    (hp : (({ capSpace := a, capStream := b, burst := c } : NodeSt).run ops).pool = []) :
+    (({ capSpace := a, capStream := b, burst := c } : NodeSt).run ops).Clean :=
+  (teardown_of_invariant _ (views_agree a b c ops)).2 hp
+
+/-- **delivery_exact over histories.** In every state reached from an empty service by any operation
+sequence, a publish frame is delivered exactly as the property says (no hypothesis left: the
+invariant is `views_agree`). -/
+theorem delivery_exact_reachable (a b c : Nat) (ops : List NodeOp)
+    (peer ident space topic msgIdent : String) (relayed idLenOk big : Bool) :
+    let s := ({ capSpace := a, capStream := b, burst := c } : NodeSt).run ops
+    let o := (s.handlePublish peer ident space topic msgIdent relayed idLenOk big).2
+    o.delivered.Nodup ∧
+    (∀ sid, sid ∈ o.delivered ↔
+      (s.publishAccepted peer ident space topic msgIdent relayed idLenOk big = true ∧
+        ∃ p, s.Reg sid space p ∧ segMatches (splitTopic p) (splitTopic topic) = true)) ∧
+    o.forwards = (if s.publishAccepted peer ident space topic msgIdent relayed idLenOk big && !relayed
+                  then [true] else []) :=
+  delivery_exact _ (views_agree a b c ops) peer ident space topic msgIdent relayed idLenOk big
 
 /-- the three witness histories of F-pubsub-empty-sub end clean in the model of the repaired code
 (on the unrepaired code the first leaves `remote[s2]`, the second `streams[1]`, see the notes) -/
